@@ -73,7 +73,7 @@ pub struct XStats {
 /// across threads (reported under C05's cross-thread clause; C01/C02 use the director).
 /// build() panicking is C11's business: every other workload skips such a graph.
 pub fn try_build(gs: &GraphSpec) -> Option<FnGraph<TFn>> {
-    std::panic::catch_unwind(std::panic::AssertUnwindSafe(|| tfn::build(gs))).ok()
+    tfn::guarded(gs.n, || std::panic::catch_unwind(std::panic::AssertUnwindSafe(|| tfn::build(gs)))).ok()
 }
 
 #[cfg(not(feature = "mt"))]
@@ -326,13 +326,17 @@ pub fn threads_directors(gs: &GraphSpec, seed: u64, k: usize, runs_per_thread: u
     let execs = AtomicU64::new(0);
     let runs_done = AtomicUsize::new(0);
     let want_ranks = ug.ranks();
+    // all threads start on the SAME instant on a graph value nobody has touched yet: the first
+    // use of anything lazily initialised inside the graph happens on several threads at once
+    let barrier = std::sync::Barrier::new(k + 1);
     thread::scope(|s| {
         // one more thread only calls read-only accessors on the same graph while the runs are in
         // progress; what it reads must always be the truth (C20: runs and readers share only
         // immutable data), and under TSan / Miri a lazily filled cache would show up as a race
         {
-            let (g, built, found, runs_done, want_ranks) = (&g, &built, &found, &runs_done, &want_ranks);
+            let (g, built, found, runs_done, want_ranks, barrier) = (&g, &built, &found, &runs_done, &want_ranks, &barrier);
             s.spawn(move || {
+                barrier.wait();
                 let mut rounds = 0u32;
                 while runs_done.load(Ordering::SeqCst) < k && rounds < 100_000 {
                     rounds += 1;
@@ -374,14 +378,21 @@ pub fn threads_directors(gs: &GraphSpec, seed: u64, k: usize, runs_per_thread: u
             });
         }
         for t in 0..k {
-            let (g, ug, built, found, apis, execs, runs_done) = (&g, &ug, &built, &found, &apis, &execs, &runs_done);
+            let (g, ug, built, found, apis, execs, runs_done, barrier) = (&g, &ug, &built, &found, &apis, &execs, &runs_done, &barrier);
             s.spawn(move || {
+                barrier.wait();
                 let mut rng = Rng::new(mix(seed, t as u64));
                 let mut prof = RunProfile::new(apis.clone());
                 prof.fail_pct = 20;
                 prof.intr_pct = 20;
                 for r in 0..runs_per_thread {
-                    let rs = gen::random_run(&mut rng, n, &prof, cfg_b);
+                    let mut rs = gen::random_run(&mut rng, n, &prof, cfg_b);
+                    if n > 40 {
+                        // big graph (wide first-use window): keep each run short
+                        rs.modes = vec![Mode::Ready; n];
+                        rs.batch = true;
+                        rs.greedy = rs.api.is_stream();
+                    }
                     let mut tape = Tape::random(mix(seed ^ 77, (t * 1000 + r) as u64));
                     let tr = run_shared(g, &rs, &mut tape);
                     execs.fetch_add(1, Ordering::Relaxed);
